@@ -475,7 +475,13 @@ func registerIntrinsics(e *Engine) {
 		if !r.decide(r.st.Eq(src[0].(*Term), BV(8, 0x53))) {
 			return bad()
 		}
-		out := make([]value, len(src)-1)
+		// like the real decoder: reuse dst when it is long enough, else allocate
+		var out []value
+		if dst, _ := args[0].([]value); len(src)-1 <= len(dst) && len(dst) > 0 {
+			out = dst[:len(src)-1]
+		} else {
+			out = make([]value, len(src)-1)
+		}
 		copy(out, src[1:])
 		return tuple{out, iface{}}
 	}
